@@ -165,6 +165,20 @@ def union_hook(spec, x, y):
     return None
 
 
+def innermost_union(pos, x):
+    """A union member may itself be (an alias / NewType of) a union. When the outer union dispatched x to that member on
+    BOTH sides (it marshalled x and it is the first to accept the wire), the difference arises inside it: judge there."""
+    for _ in range(10):
+        f, w, first = union_facts(pos, x)
+        if not (f["m_owner"] and f["m_member"] is not None and f["m_member"] == f["um_member"]):
+            return pos
+        member = declared_members(pos)[int(f["m_member"].split(":")[0])]
+        if member is None or member.peel().kind != "union":
+            return pos
+        pos = member.peel()
+    return pos
+
+
 def has_union_below(spec):
     return any(s.kind == "union" for s in spec.walk())
 
@@ -177,6 +191,7 @@ def judge(sh, spec, v, u, tsrc):
     ok_all = True
     for path, pos, x, y in rt_diffs(spec, v, u, union_hook=union_hook):
         if pos.kind == "union":
+            pos = innermost_union(pos, x)
             ok, mode, detail, uf = union_position_ok(pos, x, y)
             sh.count("union_rule_" + mode)
             if not ok:
